@@ -6,6 +6,7 @@ row's operation.  "Accepted" = `translate` returns a package AND `fitWidth` (`St
 lets the statement through; a value that does not fit its field is rejected there (`C12_*_rejected`).
 -/
 import CoCoVerif.Props.C01
+import CoCoVerif.Lemmas.EncodeProgram
 
 namespace CoCo.Props
 open CoCo CoCo.Asm CoCo.Spec.MC6809
@@ -32,8 +33,9 @@ def ConstTab (t : SymTab) : Prop := ∀ e ∈ t, e.2.isNumeric = true
 table of constants) for a machine-instruction row, if accepted, is well formed.
 (The former statement quantified over ALL operand records, including ones no source text produces — e.g. a direct
 operand carrying a string, see `C12_unreachable_operand` — and was refuted by `LDD 100,X`; that counterexample
-is repaired, `C12_finding_16bit_row_offset_fixed`.)  Neither proved nor refuted in general; `C12_partial` is the
-proved part, `C12_fitted_size` the size half for every statement. -/
+is repaired, `C12_finding_16bit_row_offset_fixed`.)  PROVED since repair batch B2 (the index register text is validated,
+so the case analysis is finite): `C12_full` in Props/C12Full.lean.  `C12_partial` is the part that follows from C01,
+`C12_fitted_size` the size half for every statement. -/
 def C12_Statement : Prop :=
   ∀ r ∈ Gen.instructions, r.isPseudo = false → ∀ (text : Str) (t : SymTab) (o0 o : Asm.Operand), ConstTab t →
     createOperand text r = .ok o0 → resolveOperand o0 r t = .ok o → Immediate o → SoundEnc o r
@@ -323,21 +325,143 @@ theorem C12_store_immediate_rejected : asmOne "STA" "#5" = none := by decide +ke
 /-- REPAIRED (formerly `C12_finding_imm8_neg_wide`: `LDA #-200` assembled to `LDA #$FF`): rejected -/
 theorem C12_finding_imm8_neg_wide_fixed : malformed "LDA" "#-200" = none := by decide +kernel
 
-/-- STILL A FINDING (A10), well-formed but WRONG: `PSHU S` pushes nothing (post byte 0) -/
-theorem C12_finding_push_S :
-    malformed "PSHU" "S" = some (2, [0x36, 0x00], some (⟨"PSHU", .list 0⟩, 2)) := by decide +kernel
+/-- REPAIRED (A10; formerly `C12_finding_push_S`: `PSHU S` was well-formed but WRONG, post byte 0): `PSHU S` pushes S
+(post byte `$40`, the other stack pointer), `PSHS U` pushes U, and an instruction naming its own stack pointer is
+rejected -/
+theorem C12_finding_push_S_fixed :
+    malformed "PSHU" "S" = some (2, [0x36, 0x40], some (⟨"PSHU", .list 0x40⟩, 2)) ∧
+    malformed "PSHS" "U" = some (2, [0x34, 0x40], some (⟨"PSHS", .list 0x40⟩, 2)) ∧
+    malformed "PSHS" "S" = none ∧ malformed "PSHU" "U" = none := by decide +kernel
 
-/-- STILL A FINDING (A9), well-formed but of doubtful meaning: a NUMBER before `,PCR` is taken as the offset
-itself, not as a target address -/
-theorem C12_finding_numeric_pcr :
-    malformed "LDA" "5,PCR" = some (3, [0xA6, 0x8C, 0x05], some (⟨"LDA", .idx (.pcr 5 false 8)⟩, 3)) := by
-  decide +kernel
+/-- REPAIRED (A9; formerly `C12_finding_numeric_pcr`): a NUMBER before `,PCR` is the offset itself, by definition
+now; what was wrong is repaired: `128,PCR` (was `8C 80`, read back as −128) takes the 16-bit form, and `0,PCR`
+(was assembled as `,X`: `A6 84`) is an offset of 0 from the program counter -/
+theorem C12_finding_numeric_pcr_fixed :
+    malformed "LDA" "5,PCR" = some (3, [0xA6, 0x8C, 0x05], some (⟨"LDA", .idx (.pcr 5 false 8)⟩, 3)) ∧
+    malformed "LDA" "128,PCR" = some (4, [0xA6, 0x8D, 0x00, 0x80], some (⟨"LDA", .idx (.pcr 128 false 16)⟩, 4)) ∧
+    malformed "LDA" "255,PCR" = some (4, [0xA6, 0x8D, 0x00, 0xFF], some (⟨"LDA", .idx (.pcr 255 false 16)⟩, 4)) ∧
+    malformed "LDA" "0,PCR" = some (3, [0xA6, 0x8C, 0x00], some (⟨"LDA", .idx (.pcr 0 false 8)⟩, 3)) ∧
+    malformed "LDA" "[0,PCR]" = some (3, [0xA6, 0x9C, 0x00], some (⟨"LDA", .idx (.pcr 0 true 8)⟩, 3)) := by
+  refine ⟨?_, ?_, ?_, ?_, ?_⟩ <;> decide +kernel
+
+/-- FINDING (new, found while proving `C12_full`; well-formed but of doubtful meaning): an accumulator offset before an
+auto increment / decrement register is ACCEPTED and the increment silently dropped: `LDA A,X+` is assembled as
+`A,X` (`A6 86`), `LDA B,-X` as `B,X` (`A6 85`), `LDA [D,--Y]` as `[D,Y]` (`A6 BB`).  The 6809 has no such mode; a
+constant offset in that place (`5,X+`) IS rejected. -/
+theorem C12_finding_acc_autoincrement :
+    malformed "LDA" "A,X+" = some (2, [0xA6, 0x86], some (⟨"LDA", .idx (.acc 6 0 false)⟩, 2)) ∧
+    malformed "LDA" "B,-X" = some (2, [0xA6, 0x85], some (⟨"LDA", .idx (.acc 5 0 false)⟩, 2)) ∧
+    malformed "LDA" "[D,--Y]" = some (2, [0xA6, 0xBB], some (⟨"LDA", .idx (.acc 11 1 true)⟩, 2)) ∧
+    malformed "LDA" "5,X+" = none := by
+  refine ⟨?_, ?_, ?_, ?_⟩ <;> decide +kernel
 
 /-- why `C12_Statement` speaks about operands the front end builds: an operand RECORD no source text produces
 (a direct operand carrying a string) is accepted with four bytes for an announced size of two -/
 theorem C12_unreachable_operand : ∃ r ∈ Gen.instructions, r.isPseudo = false ∧
     sizeAndBytes { kind := .direct, text := [], value := .str "ABC".toList } r = some (2, [0x96, 0x41, 0x42, 0x43]) := by
   decide +kernel
+
+/-! ### rejection of operands the datasheet has no form for (repair A10) -/
+
+/-- **an unknown index register is REJECTED** (`5,Z`, `1,PC`, `,X+++`, `5,y`): whatever the row and the left part -/
+theorem C12_unknown_index_register_rejected {o : Asm.Operand} {r : InstrRow} {right : Str} (hk : o.kind = .indexed)
+    (hr : o.right = some right) (hv : validIndexReg right = false) :
+    translateOperand o r = .error .operandType := by
+  simp only [translateOperand, hk, translateIndexed, hr, pure_bind, hv]
+  cases hc : (r.ind.isNone || r.ind == some 0) <;> simp <;> rfl
+
+/-- the same inside brackets (`[5,Z]`), for a row of the table -/
+theorem C12_unknown_index_register_rejected_ind {o : Asm.Operand} {r : InstrRow} {right : Str} {c : Nat}
+    (hb : Bracketed o) (hc : r.ind = some c) (hc' : c < 65536) (hr : o.right = some right)
+    (hv : validIndexReg right = false) :
+    translateOperand o r = .error .operandType := by
+  simp only [translateOperand, hb.1, translateExtIndirect, hc, opVal_ok hc', hb.2.1, hb.2.2, hr, pure_bind, hv]
+  by_cases h0 : c = 0 <;> simp [h0] <;> rfl
+
+/-- **`,PCR`, `A,PCR`, `B,PCR`, `D,PCR` are REJECTED** ("PCR needs an offset") -/
+theorem C12_pcr_without_offset_rejected {o : Asm.Operand} {r : InstrRow} {l : Str} (hk : o.kind = .indexed)
+    (hl : o.left = .text l) (hl' : l = [] ∨ isABD l = true) (hr : o.right = some (str "PCR")) :
+    translateOperand o r = .error .operandType := by
+  have hv : validIndexReg (str "PCR") = true := by decide
+  have hl'' : (l.isEmpty || isABD l) = true := by
+    rcases hl' with rfl | h
+    · rfl
+    · simp [h]
+  simp only [translateOperand, hk, translateIndexed, hr, pure_bind, hv, hl, hl'']
+  cases hc : (r.ind.isNone || r.ind == some 0) <;> simp <;> rfl
+
+theorem C12_pcr_without_offset_rejected_ind {o : Asm.Operand} {r : InstrRow} {l : Str} {c : Nat}
+    (hb : Bracketed o) (hc : r.ind = some c) (hc' : c < 65536)
+    (hl : o.left = .text l) (hl' : l = [] ∨ isABD l = true) (hr : o.right = some (str "PCR")) :
+    translateOperand o r = .error .operandType := by
+  have hv : validIndexReg (str "PCR") = true := by decide
+  have hl'' : (l.isEmpty || isABD l) = true := by
+    rcases hl' with rfl | h
+    · rfl
+    · simp [h]
+  simp only [translateOperand, hb.1, translateExtIndirect, hc, opVal_ok hc', hb.2.1, hb.2.2, hr, pure_bind, hv, hl, hl'']
+  by_cases h0 : c = 0 <;> simp [h0] <;> rfl
+
+
+/-- **an instruction cannot stack its own pointer** (`PSHS S`, `PULS A,S`, `PSHU U`, `PULU U,X`): every register
+list that names it is REJECTED -/
+theorem C12_own_stack_pointer_rejected {r : InstrRow} {o : Asm.Operand} {regs : List Str}
+    (hm : isStackMn r.mnemonic = true) (hk : o.kind = .special) (ht : o.text = joinWith ',' regs)
+    (hnc : ∀ x ∈ regs, ',' ∉ x) (hown : ownSP (isUStack r.mnemonic) ∈ regs) :
+    translateOperand o r = .error .operandType := by
+  have hne : regs ≠ [] := by rintro rfl; cases hown
+  refine C01_push_pull_rejected hm hk ⟨_, by rw [ht, splitOn_joinWith ',' regs hne hnc]; exact hown, ?_⟩
+  cases isUStack r.mnemonic <;> decide
+
+/-- ... and so is a list naming something that is no register (`PSHS Q`, `PSHS A,,B`) -/
+theorem C12_unknown_register_rejected {r : InstrRow} {o : Asm.Operand} {regs : List Str} {x : Str}
+    (hm : isStackMn r.mnemonic = true) (hk : o.kind = .special) (ht : o.text = joinWith ',' regs)
+    (hnc : ∀ x ∈ regs, ',' ∉ x) (hx : x ∈ regs) (hbad : isReg x = false) :
+    translateOperand o r = .error .operandType := by
+  have hne : regs ≠ [] := by rintro rfl; cases hx
+  simp only [translateOperand, hk]
+  exact translateSpecial_psh_reject _ (by simpa [isStackMn] using hm) (stackMn_own hm)
+    ⟨x, by rw [ht, splitOn_joinWith ',' regs hne hnc]; exact hx, Or.inl hbad⟩
+
+/-- what the front end builds for the rejected spellings: the hypotheses of the rejection theorems are met -/
+structure BuiltIdx where
+  kind : OpKind
+  leftText : Option Str
+  right : Option Str
+deriving DecidableEq, Repr
+
+def builtIdx (mn operand : String) : Option BuiltIdx :=
+  match asmOperand mn operand with
+  | some (_, o) => some ⟨o.kind, (match o.left with | .text l => some l | _ => none), o.right⟩
+  | none => none
+
+example : builtIdx "LDA" "5,Z" = some ⟨.indexed, none, some ['Z']⟩ := by decide +kernel
+example : builtIdx "LDA" "1,PC" = some ⟨.indexed, none, some ['P', 'C']⟩ := by decide +kernel
+example : builtIdx "LDA" ",X+++" = some ⟨.indexed, some [], some ['X', '+', '+', '+']⟩ := by decide +kernel
+example : builtIdx "LDA" "5,y" = some ⟨.indexed, none, some ['y']⟩ := by decide +kernel
+example : builtIdx "LDA" "[5,Z]" = some ⟨.extIndirect, none, some ['Z']⟩ := by decide +kernel
+example : builtIdx "LDA" ",PCR" = some ⟨.indexed, some [], some ['P', 'C', 'R']⟩ := by decide +kernel
+example : builtIdx "LDA" "D,PCR" = some ⟨.indexed, some ['D'], some ['P', 'C', 'R']⟩ := by decide +kernel
+example : validIndexReg ['Z'] = false ∧ validIndexReg ['P', 'C'] = false ∧ validIndexReg ['X', '+', '+', '+'] = false ∧
+    validIndexReg ['y'] = false := by decide
+
+/-- the same source statements end to end: none of them assembles -/
+theorem C12_rejected_spellings :
+    asmOne "LDA" "5,Z" = none ∧ asmOne "LDA" "1,PC" = none ∧ asmOne "LDA" ",X+++" = none ∧ asmOne "LDA" "5,y" = none ∧
+    asmOne "LDA" "[5,Z]" = none ∧ asmOne "LDA" ",PCR" = none ∧ asmOne "LDA" "D,PCR" = none ∧ asmOne "LDA" "[,PCR]" = none ∧
+    asmOne "PSHS" "S" = none ∧ asmOne "PSHU" "U" = none ∧ asmOne "PULS" "A,S" = none ∧ asmOne "PULU" "U,X" = none ∧
+    asmOne "PSHS" "Q" = none := by
+  refine ⟨?_, ?_, ?_, ?_, ?_, ?_, ?_, ?_, ?_, ?_, ?_, ?_, ?_⟩ <;> decide +kernel
+
+/-- ... and as whole programs they end in a diagnostic -/
+theorem C12_rejected_programs (fs : Files) :
+    assemble fs [" LDA 5,Z\n".toList] = .diag ∧ assemble fs [" LDA 1,PC\n".toList] = .diag ∧
+    assemble fs [" LDA ,X+++\n".toList] = .diag ∧ assemble fs [" LDA 5,y\n".toList] = .diag ∧
+    assemble fs [" LDA ,PCR\n".toList] = .diag ∧ assemble fs [" LDA D,PCR\n".toList] = .diag ∧
+    assemble fs [" PSHS S\n".toList] = .diag ∧ assemble fs [" PSHU U\n".toList] = .diag :=
+  ⟨progDiag_sound (by decide +kernel) fs, progDiag_sound (by decide +kernel) fs, progDiag_sound (by decide +kernel) fs,
+   progDiag_sound (by decide +kernel) fs, progDiag_sound (by decide +kernel) fs, progDiag_sound (by decide +kernel) fs,
+   progDiag_sound (by decide +kernel) fs, progDiag_sound (by decide +kernel) fs⟩
 
 end CoCo.Props
 
@@ -349,4 +473,8 @@ open CoCo.Props
 #print axioms C12_direct_out_of_range_rejected
 #print axioms C12_fitted_size
 #print axioms C12_fitted_size_even
+#print axioms C12_unknown_index_register_rejected
+#print axioms C12_pcr_without_offset_rejected
+#print axioms C12_own_stack_pointer_rejected
+#print axioms C12_rejected_programs
 end axioms
